@@ -2,7 +2,15 @@ package c14
 
 import (
 	"fmt"
+	"go/ast"
+	"go/parser"
+	"go/token"
+	"io/fs"
 	"math/big"
+	"os"
+	"path/filepath"
+	"sort"
+	"strings"
 	"testing"
 
 	sdkmath "cosmossdk.io/math"
@@ -15,10 +23,84 @@ import (
 	valsettypes "github.com/palomachain/paloma/v2/x/valset/types"
 )
 
-// doReassign drives the exported but (on the pinned tree) uncalled ReassignOrphanedMessages: the
+// scanReassignCallers: non-test, non-verif call sites of ReassignOrphanedMessages (and of
+// reassignMessageValidator outside it) in the tree under test — the same query the translator
+// emits as Gen.C14.reassign_production_callers.  Empty on the merged tree.
+func scanReassignCallers(repo string) []string {
+	set := map[string]bool{}
+	skip := map[string]bool{"mocks": true, "testutil": true, "tests": true, ".git": true, "node_modules": true, "vue": true, "docs": true, "proto": true}
+	fset := token.NewFileSet()
+	_ = filepath.WalkDir(repo, func(p string, d fs.DirEntry, err error) error {
+		if err != nil {
+			return nil
+		}
+		if d.IsDir() {
+			if skip[d.Name()] {
+				return filepath.SkipDir
+			}
+			return nil
+		}
+		n := d.Name()
+		if !strings.HasSuffix(n, ".go") || strings.HasSuffix(n, "_test.go") || strings.HasPrefix(n, "verif_hooks") {
+			return nil
+		}
+		src, err := os.ReadFile(p)
+		if err != nil || !(strings.Contains(string(src), "ReassignOrphanedMessages") || strings.Contains(string(src), "reassignMessageValidator")) {
+			return nil
+		}
+		if strings.HasPrefix(strings.TrimSpace(string(src)), "//go:build verif") {
+			return nil
+		}
+		f, err := parser.ParseFile(fset, p, src, 0)
+		if err != nil {
+			return nil
+		}
+		rel, _ := filepath.Rel(repo, p)
+		for _, dcl := range f.Decls {
+			fd, ok := dcl.(*ast.FuncDecl)
+			if !ok || fd.Body == nil {
+				continue
+			}
+			ast.Inspect(fd.Body, func(x ast.Node) bool {
+				ce, ok := x.(*ast.CallExpr)
+				if !ok {
+					return true
+				}
+				name := ""
+				switch fn := ce.Fun.(type) {
+				case *ast.SelectorExpr:
+					name = fn.Sel.Name
+				case *ast.Ident:
+					name = fn.Name
+				}
+				if name == "ReassignOrphanedMessages" || (name == "reassignMessageValidator" && fd.Name.Name != "ReassignOrphanedMessages") {
+					set[rel+":"+fd.Name.Name+" -> "+name] = true
+				}
+				return true
+			})
+		}
+		return nil
+	})
+	var out []string
+	for k := range set {
+		out = append(out, k)
+	}
+	sort.Strings(out)
+	return out
+}
+
+// doReassign drives the exported but (on the merged tree) uncalled ReassignOrphanedMessages: the
 // message gets a new, eligible assignee, but keeps the fees computed from the previous assignee's
-// multiplier.  Recorded as a known (latent) finding; the life-cycle model has no such step.
+// multiplier.  Latent: no history of the system's API reaches it, so the witness is replayed on the
+// real keeper every run but is a violation ONLY when the function has a production caller (the
+// translator pins the caller inventory empty; a new caller also breaks that proof step).
 func doReassign(t *testing.T, run *emit.Run, p *pool) {
+	repo := os.Getenv("VERIF_REPO")
+	if repo == "" {
+		repo = "/repo"
+	}
+	callers := scanReassignCallers(repo)
+	run.Extra("reassign_production_callers", callers)
 	for ts := int64(1700000000); ts < 1700000003; ts++ {
 		e := newEnv(t, 5, ts)
 		chain := chains[0]
@@ -72,9 +154,12 @@ func doReassign(t *testing.T, run *emit.Run, p *pool) {
 		}
 		want := ceilDiv(new(big.Int).Mul(mults[now], new(big.Int).SetUint64(msgs[0].GetGasEstimate())))
 		if want.Cmp(new(big.Int).SetUint64(fees.RelayerFee)) != 0 {
-			run.Violate("C14:reassign-keeps-stale-fees",
-				fmt.Sprintf("ReassignOrphanedMessages (exported, no caller on the pinned tree) moved message %d from #0 to #%d but kept relayer fee %d; ceiling for the new assignee is %s", id, now, fees.RelayerFee, want),
-				map[string]any{"kind": "reassign", "ts": ts, "multipliers": fmt.Sprint(mults), "gas": 21000, "new_assignee": now, "fees": fmt.Sprint(fees)})
+			run.Count("reassign", "stale-fees-witnessed")
+			if len(callers) > 0 {
+				run.Violate("C14:reassign-keeps-stale-fees",
+					fmt.Sprintf("ReassignOrphanedMessages (now reachable: %s) moved message %d from #0 to #%d but kept relayer fee %d; ceiling for the new assignee is %s", strings.Join(callers, ", "), id, now, fees.RelayerFee, want),
+					map[string]any{"kind": "reassign", "ts": ts, "multipliers": fmt.Sprint(mults), "gas": 21000, "new_assignee": now, "fees": fmt.Sprint(fees), "callers": callers})
+			}
 		}
 	}
 }
